@@ -5,6 +5,7 @@ import XV.Spec.OpTables
 import XV.Driver.LinesOps
 import XV.Driver.DecodeOps
 import XV.Driver.MarshalOps
+import XV.Driver.ListingOps
 namespace XV.Driver
 open XV XV.Model
 
@@ -49,6 +50,8 @@ def dispatch (op : String) (args : List String) : String :=
                   | some r => r
                   | none => match convDispatch op args with
                     | some r => r
-                    | none => "(err bad-op)"
+                    | none => match listingDispatch op args with
+                      | some r => r
+                      | none => "(err bad-op)"
 
 end XV.Driver
